@@ -22,7 +22,7 @@ PROPS = {
     "C01": {
         "pf": True,
         "n": {"quick": 220, "thorough": 12000},
-        "cone": ["Bytes", "BytesLemmas", "Regex", "Generated", "Channel", "Session", "SessionLemmas", "Replay"],
+        "cone": ["Bytes", "BytesLemmas", "Regex", "Generated", "Channel", "Session", "SessionLemmas", "Replay", "DecideLang", "GeneratedSkel", "ChannelSrc"],
         "rx": True,
         "kernel_sample": {"quick": 6, "thorough": 20}, "kernel_maxlen": 2500,
         "rule": "generic.Driver SendCommands / SendCommand over the simulated transport and a CLI echo device: prompts drawn from the default "
@@ -360,7 +360,7 @@ PROPS = {
     "C12": {
         "pf": True,
         "n": {"quick": 240, "thorough": 8000},
-        "cone": ["Bytes", "Regex", "Generated", "Channel", "Network", "ChanTrace", "ChanTraceLemmas", "InteractiveLemmas", "Replay"],
+        "cone": ["Bytes", "Regex", "Generated", "Channel", "Network", "ChanTrace", "ChanTraceLemmas", "InteractiveLemmas", "Replay", "DecideLang", "GeneratedSkel", "ChannelSrc"],
         "rx": True,
         "rule": "SendInteractive dialogues (1-5 events, visible/hidden, with/without expected response, completion patterns) against a scripted "
                 "device whose reactions become readable only after a delay (0 / 0.3 / 1.5 ms) so that typing ahead is observable (bytes delivered "
